@@ -1159,6 +1159,11 @@ class Executor:
             fd = self._find_method_def(v.cls, attr)
             if fd is not None:
                 return [(st, ('inline_method', v, fd))]
+            pd = self._find_method_def(v.cls, attr, want_property=True)
+            if pd is not None:
+                # a plain property without a contract: its getter is part of the implementation
+                outs = self.call_method_inline(pd, v, [], {}, st)
+                return [(o[0], o[1]) for o in outs]
             raise Unsupported(f'unknown attribute {v.cls}.{attr}')
         if isinstance(v, tuple) and len(v) == 2 and v[0] == 'global':
             if f'{v[1]}.{attr}' in ('np.pi', 'math.pi', 'numpy.pi'):
@@ -1699,7 +1704,7 @@ class Executor:
             return self.apply_contract(c, args, kwargs, st)
         raise Unsupported(f'call to {name!r} (no primitive and no contract)')
 
-    def _find_method_def(self, cls, name):
+    def _find_method_def(self, cls, name, want_property=False):
         tree = getattr(self.registry, 'current_tree', None)
         if tree is None:
             return None
@@ -1709,6 +1714,8 @@ class Executor:
                     if isinstance(m, ast.FunctionDef) and m.name == name:
                         decs = {_dotted(d) if not isinstance(d, ast.Call) else _dotted(d.func)
                                 for d in m.decorator_list}
+                        if want_property:
+                            return m if decs == {'property'} else None
                         if decs & {'property', 'lazyproperty', 'classmethod'}:
                             return None
                         return m
